@@ -13,6 +13,7 @@ import re
 import os.path
 import queue
 import gc
+import heapq
 
 from contextlib import contextmanager
 from time import perf_counter, time
@@ -1092,7 +1093,16 @@ def execute_one_plan(
                 since=plan.since,
                 until=plan.until,
             ) as scanner:
-                for event in matcher(txn, scanner, plan.query, plan.stats):
+                matched = matcher(txn, scanner, plan.query, plan.stats)
+                if limit is not None and (
+                    isinstance(plan.index, MultiIndex) or len(plan.matches) > 1
+                ):
+                    # only the keys of a single match are scanned newest first:
+                    # look at every match to find the newest events overall
+                    matched = heapq.nlargest(
+                        limit, matched, key=lambda event: event.created_at
+                    )
+                for event in matched:
                     if count == limit:
                         break
                     on_event(event)
